@@ -18,7 +18,7 @@ for d in sorted(glob.glob("/tmp/mut/out/C??-[%s]" % suffixes)):
     shutil.copytree(d, dst)
     meta = json.load(open(os.path.join(dst, "meta.json")))
     meta["independently_confirmed"] = {k: conf.get(k) for k in ("confirmed", "patch_applies", "builds_with_patch", "demo_without_patch", "demo_with_patch", "baseline_tests_with_patch")}
-    meta["what_i_ran"] = ["/verif/confirm_mutant.py /tmp/mut/out/%s" % mid, "/verif/try_mutant.sh seeded/%s/patch.diff %s 40 12" % (mid, mid[:3])]
+    meta["what_i_ran"] = ["/verif/confirm_mutant.py /tmp/mut/out/%s" % mid, "/verif/try_mutant.sh seeded/%s/patch.diff %s %s" % (mid, mid[:3], os.environ.get("TRY_ARGS", "40 12"))]
     rule = m.group(1).strip() if m else ""
     rp = re.search(r"replay=(\S+)", tryf)
     if not rule and rp and os.path.exists(rp.group(1)):
@@ -26,7 +26,7 @@ for d in sorted(glob.glob("/tmp/mut/out/C??-[%s]" % suffixes)):
     meta["detected_by"] = (rule or "VIOLATION") if detected else "not detected"
     if mid in notes:
         meta["detection_note"] = notes[mid]
-    meta["origin"] = "third round: written by a fresh sub-agent that saw only the property text, the list of earlier changes to avoid, and its own scratch worktree"
+    meta["origin"] = os.environ.get("ROUND_NAME", "third") + " round: written by a fresh sub-agent that saw only the property text, the list of earlier changes to avoid, and its own scratch worktree"
     json.dump(meta, open(os.path.join(dst, "meta.json"), "w"), indent=1)
     t = (meta.get("title") or "").replace("|", "/")
     n = (meta.get("needs_to_manifest") or "").replace("|", "/").replace("\n", " ")
